@@ -205,10 +205,12 @@ def run(run: Run) -> None:
     for i in range(0, len(na3), 128):
         us.append(("games", 3, na3[i:i + 128]))
     us.append(("games", 4, list(nearly_additive(4))))
-    width = 4 if quick else 16
+    width = 4 if quick else 48
     for name in gens.names():
-        for n in ((3, 4, 5) if not quick else (3, 4)):
-            us.append(("gen", name, n, list(gens.seed_window(seed, width))))
+        for n in ((3, 4, 5, 6) if not quick else (3, 4)):
+            if n == 6 and name == "oxs":
+                continue
+            us.append(("gen", name, n, list(gens.seed_window(seed, width if n < 6 else 8))))
     run.rule = ("every game of A3-SA / A4-SA with additive shifts and dyadic copies, additive games (integer and float), nearly additive games "
                 "(additive + 2^-k * superadditive), every registered generator x seed window (graph games in both representations): normalised values "
                 "compared with exact-rational normalisation under the three-zone specification; de-normalisation restores the input. "
